@@ -104,6 +104,8 @@ theorem partitionIndices_out_of_range (inds : List Int) (lens : List Nat) :
     | nil => exact absurd rfl hne
     | cons a as => simp [partitionIndices, locate_negative a as i 0 hi]
 
+-- the hypothesis is satisfiable: indices on first/last frames of trajectories, one repeated
+example : ∀ i ∈ ([0, 2, 3, 5, 5] : List Int), 0 ≤ i ∧ i < (([3, 0, 3] : List Nat).sum : Int) := by decide
 example : partitionIndices [0, 2, 3, 5, 5, 9, -1] [3, 0, 3] = [(0, 0), (0, 2), (2, 0), (2, 2), (2, 2), (0, -1)] := by
   decide
 
@@ -118,6 +120,10 @@ theorem partition_addresses_same_frame {α : Type} (l : List α) (lens : List Na
   refine ⟨t, f, splitBy l lens, row, ?_, partitionList_ok l lens hsum, hr, ?_⟩
   · simp [partitionIndices, hl]
   · rw [hrow]; congr 1; omega
+
+-- flat index 3 is frame 0 of trajectory 2 (trajectory 1 is empty) and holds the same value
+example : partitionIndices [3] [3, 0, 3] = [(2, 0)] ∧
+    partitionList [10, 11, 12, 13, 14, 15] [3, 0, 3] = .ok [[10, 11, 12], [], [13, 14, 15]] := by decide
 
 /-! ## `ClusterResult.partition` -/
 
@@ -234,6 +240,10 @@ theorem predict_correct (D : Nat → Nat → Rat) (n k : Nat) (hasXyz : Bool) :
     (fun f => ((assignNearest D n k hasXyz).lab f : Int)) n (assignNearest D n k hasXyz).dist).2 rfl
   exact ⟨cs, by simp [predict, hcs], hcs⟩
 
+-- more centers than frames, labels 1 and 0 present -> center frames 1 and 0
+example : predict (fun f c => [[3, 1, 1], [2, 2, 5]][f]![c]!) 2 3 false
+    = .ok ([1, 0], [some 1, some 2], [1, 0]) := by decide
+
 /-! ## `compute_batches`, `batch_reassign` -/
 
 /-- The batches concatenate to `0 … m-1` in order (every trajectory in exactly one batch, order
@@ -247,76 +257,42 @@ theorem computeBatches_cover (lens : List Nat) (batchSize : Nat) :
   ⟨computeBatches_flatten lens batchSize, computeBatches_tail lens batchSize,
    computeBatches_fits lens batchSize⟩
 
-/-- The FIRST batch is empty exactly when the first trajectory is at least as long as the batch
-size (this is what makes `batch_reassign` fail, see `batchReassign_counterexample`). -/
-theorem computeBatches_first_empty_iff (l0 : Nat) (ls : List Nat) (batchSize : Nat) :
-    (∃ rest, computeBatches (l0 :: ls) batchSize = [] :: rest) ↔ batchSize ≤ l0 := by
-  constructor
-  · intro ⟨rest, h⟩
-    by_cases hlt : l0 < batchSize
-    · have := computeBatches_allne l0 ls batchSize hlt [] (by simp [h])
-      exact absurd rfl this
-    · omega
-  · exact computeBatches_first_empty l0 ls batchSize
+/-- no batch is empty when there is at least one trajectory -/
+theorem computeBatches_nonempty (lens : List Nat) (batchSize : Nat) (h : lens ≠ []) :
+    ∀ b ∈ computeBatches lens batchSize, b ≠ [] := by
+  cases lens with
+  | nil => exact absurd rfl h
+  | cons l0 ls => exact computeBatches_allne l0 ls batchSize
 
 example : computeBatches [3, 4, 5, 1, 1, 9] 9 = [[0, 1], [2, 3, 4], [5]] := by decide
-example : computeBatches [9, 1] 9 = [[], [0], [1]] := by decide
+example : computeBatches [9, 1] 9 = [[0], [1]] := by decide
 
-/-- Full statement for batch reassignment: for every valid input (at least one center, at least
-one trajectory, no trajectory longer than the batch size — the guard of `batch_reassign`)
-each trajectory gets, frame by frame, the label and distance of the whole-data sweep
-(hence by `assign_is_min` the first nearest center and exactly its distance), whatever the
-batch size.  NOT asserted: false when the first trajectory is exactly as long as the batch
-size (`batchReassign_counterexample`). -/
-def C10_batchReassign_full : Prop :=
-  ∀ (D : Nat → Nat → Rat) (lens : List Nat) (k : Nat) (hasXyz : Bool) (batchSize : Nat),
-    0 < k → lens ≠ [] → (∀ l ∈ lens, l ≤ batchSize) →
-    batchReassign D lens k hasXyz batchSize =
-      .ok ((List.range lens.length).map (pieceOf D lens k))
-
-/-- Proved part: the full statement under the extra hypothesis that the first trajectory is
-strictly shorter than the batch size (what is missing: the case `lens[0] = batchSize`, where
-the code raises IndexError on an empty first batch). -/
-theorem batchReassign_partial (D : Nat → Nat → Rat) (l0 : Nat) (ls : List Nat) (k : Nat)
+/-- Batch reassignment: for every valid input (at least one center, at least one trajectory, no
+trajectory longer than the batch size — the guard of `batch_reassign`) each trajectory gets,
+frame by frame, the label and distance of the whole-data sweep (hence by `assign_is_min` the
+first nearest center and exactly its distance), whatever the batch size. -/
+theorem batchReassign_correct (D : Nat → Nat → Rat) (lens : List Nat) (k : Nat)
     (hasXyz : Bool) (batchSize : Nat)
-    (hk : 0 < k) (hle : ∀ l ∈ l0 :: ls, l ≤ batchSize) (hfirst : l0 < batchSize) :
-    batchReassign D (l0 :: ls) k hasXyz batchSize =
-      .ok ((List.range (l0 :: ls).length).map (pieceOf D (l0 :: ls) k)) := by
+    (hk : 0 < k) (hne : lens ≠ []) (hle : ∀ l ∈ lens, l ≤ batchSize) :
+    batchReassign D lens k hasXyz batchSize =
+      .ok ((List.range lens.length).map (pieceOf D lens k)) := by
   have hk' : ¬ k = 0 := by omega
   simp only [batchReassign, hk', if_false]
-  cases hm : listMax (l0 :: ls) with
-  | none => simp [listMax] at hm
+  cases hm : listMax lens with
+  | none => cases lens with
+    | nil => exact absurd rfl hne
+    | cons a as => simp [listMax] at hm
   | some m =>
     have hmem := listMax_mem _ _ hm
     have hmle := hle m hmem
     simp only [show ¬ batchSize < m by omega, if_false]
-    rw [reassignBatches_ok D (l0 :: ls) k hasXyz _ (computeBatches_allne l0 ls batchSize hfirst),
+    rw [reassignBatches_ok D lens k hasXyz _ (computeBatches_nonempty lens batchSize hne),
       computeBatches_flatten]
 
--- non-vacuity of the partial theorem, two batches
+-- non-vacuity: two batches; first trajectory exactly as long as the batch size
 example : batchReassign (fun f c => [[1, 2], [2, 1], [3, 3]][f]![c]!) [2, 1] 2 false 3
     = .ok [[(0, some 1), (1, some 1)], [(0, some 3)]] := by decide
-
-/-- the full statement fails: first trajectory exactly as long as the batch size -/
-theorem batchReassign_counterexample : ¬ C10_batchReassign_full := by
-  intro h
-  have := h (fun _ _ => 0) [2, 1] 1 false 2 (by decide) (by decide) (by decide)
-  revert this
-  decide
-
-/-- the error the code raises in that region -/
-theorem batchReassign_first_full_error (D : Nat → Nat → Rat) (l0 : Nat) (ls : List Nat) (k : Nat)
-    (hasXyz : Bool) (batchSize : Nat) (hk : 0 < k) (hle : ∀ l ∈ l0 :: ls, l ≤ batchSize)
-    (hfirst : batchSize ≤ l0) :
-    batchReassign D (l0 :: ls) k hasXyz batchSize = .error .indexError := by
-  have hk' : ¬ k = 0 := by omega
-  simp only [batchReassign, hk', if_false]
-  cases hm : listMax (l0 :: ls) with
-  | none => simp [listMax] at hm
-  | some m =>
-    have hmle := hle m (listMax_mem _ _ hm)
-    simp only [show ¬ batchSize < m by omega, if_false]
-    obtain ⟨rest, hr⟩ := computeBatches_first_empty l0 ls batchSize hfirst
-    simp [hr, reassignBatches, reassignBatch]
+example : batchReassign (fun f c => [[1, 2], [2, 1], [3, 3]][f]![c]!) [2, 1] 2 false 2
+    = .ok [[(0, some 1), (1, some 1)], [(0, some 3)]] := by decide
 
 end C10
